@@ -55,62 +55,62 @@ PROPS = {
                         "no known findings: the four defects this check found in the MQTT 5 codecs were repaired in /repo (c0aab5e, a5a3ef5, c89564d+95ce8d5, 86cba48, see KNOWN_FINDINGS.txt `fixed:`), the model follows the repaired code and the v5 theorems are stated at full strength"],
     },
     "C01": {
-        "runs": [{"vh": "router", "driver": "router C01", "args": ["--profile", "c01"], "shards_thorough": 16, "selftest": True}],
+        "runs": [{"vh": "router", "shards_quick": 8, "driver": "router C01", "args": ["--profile", "c01"], "shards_thorough": 16, "selftest": True}],
         "trusted_base": ["Router model Model/Router/{Types,Step}.lean: one step = one Router::events(id, ev) or one Router::consume(); link-side pushes/drains are separate steps; Rust panic sites explicit (Fail.panic); HashMap iteration orders that are observable and the Random strategy's draw are oracle inputs recorded by hook H3 and checked for admissibility", "Monitors Model/Router/Monitors.lean (executable spec evaluated on the implementation's observable trace, using the model's ghost history, which is trustworthy while model and implementation agree on every output)"],
         "modelled": ['meters, alerts, tracing, print_status, tenant prefix, message expiry (generators keep expiry out of range)', 'thread interleavings inside one Router::consume() (link-side drain between two router-side lock acquisitions) are not generated: ops are atomic', "flume channel capacity of the router's event channel, parking_lot mutexes"],
         "assumptions": ["router driven single-threadedly through hooks H1-H3 (guard --cfg rumqtt_verif): Router::verif_events / verif_consume, link-side buffers via rumqttd::verif::new_buffers"],
     },
     "C03": {
-        "runs": [{"vh": "router", "driver": "router C03", "args": ["--profile", "c03"], "shards_thorough": 16, "selftest": False}],
+        "runs": [{"vh": "router", "shards_quick": 8, "driver": "router C03", "args": ["--profile", "c03"], "shards_thorough": 16, "selftest": False}],
         "trusted_base": ["Router model Model/Router/{Types,Step}.lean: one step = one Router::events(id, ev) or one Router::consume(); link-side pushes/drains are separate steps; Rust panic sites explicit (Fail.panic); HashMap iteration orders that are observable and the Random strategy's draw are oracle inputs recorded by hook H3 and checked for admissibility", "Monitors Model/Router/Monitors.lean (executable spec evaluated on the implementation's observable trace, using the model's ghost history, which is trustworthy while model and implementation agree on every output)"],
         "modelled": ['meters, alerts, tracing, print_status, tenant prefix, message expiry (generators keep expiry out of range)', 'thread interleavings inside one Router::consume() (link-side drain between two router-side lock acquisitions) are not generated: ops are atomic', "flume channel capacity of the router's event channel, parking_lot mutexes"],
         "assumptions": ["router driven single-threadedly through hooks H1-H3 (guard --cfg rumqtt_verif): Router::verif_events / verif_consume, link-side buffers via rumqttd::verif::new_buffers"],
     },
     "C06": {
-        "runs": [{"vh": "router", "driver": "router C06", "args": ["--profile", "c06"], "shards_thorough": 16, "selftest": False}],
+        "runs": [{"vh": "router", "shards_quick": 8, "driver": "router C06", "args": ["--profile", "c06"], "shards_thorough": 16, "selftest": False}],
         "trusted_base": ["Router model Model/Router/{Types,Step}.lean: one step = one Router::events(id, ev) or one Router::consume(); link-side pushes/drains are separate steps; Rust panic sites explicit (Fail.panic); HashMap iteration orders that are observable and the Random strategy's draw are oracle inputs recorded by hook H3 and checked for admissibility", "Monitors Model/Router/Monitors.lean (executable spec evaluated on the implementation's observable trace, using the model's ghost history, which is trustworthy while model and implementation agree on every output)"],
         "modelled": ['meters, alerts, tracing, print_status, tenant prefix, message expiry (generators keep expiry out of range)', 'thread interleavings inside one Router::consume() (link-side drain between two router-side lock acquisitions) are not generated: ops are atomic', "flume channel capacity of the router's event channel, parking_lot mutexes"],
         "assumptions": ["router driven single-threadedly through hooks H1-H3 (guard --cfg rumqtt_verif): Router::verif_events / verif_consume, link-side buffers via rumqttd::verif::new_buffers"],
     },
     "C08": {
-        "runs": [{"vh": "router", "driver": "router C08", "args": ["--profile", "c08"], "shards_thorough": 16, "selftest": False}],
+        "runs": [{"vh": "router", "shards_quick": 8, "driver": "router C08", "args": ["--profile", "c08"], "shards_thorough": 16, "selftest": False}],
         "trusted_base": ["Router model Model/Router/{Types,Step}.lean: one step = one Router::events(id, ev) or one Router::consume(); link-side pushes/drains are separate steps; Rust panic sites explicit (Fail.panic); HashMap iteration orders that are observable and the Random strategy's draw are oracle inputs recorded by hook H3 and checked for admissibility", "Monitors Model/Router/Monitors.lean (executable spec evaluated on the implementation's observable trace, using the model's ghost history, which is trustworthy while model and implementation agree on every output)"],
         "modelled": ['meters, alerts, tracing, print_status, tenant prefix, message expiry (generators keep expiry out of range)', 'thread interleavings inside one Router::consume() (link-side drain between two router-side lock acquisitions) are not generated: ops are atomic', "flume channel capacity of the router's event channel, parking_lot mutexes"],
         "assumptions": ["router driven single-threadedly through hooks H1-H3 (guard --cfg rumqtt_verif): Router::verif_events / verif_consume, link-side buffers via rumqttd::verif::new_buffers"],
     },
     "C09": {
-        "runs": [{"vh": "router", "driver": "router C09", "args": ["--profile", "c09"], "shards_thorough": 16, "selftest": False}],
+        "runs": [{"vh": "router", "shards_quick": 8, "driver": "router C09", "args": ["--profile", "c09"], "shards_thorough": 16, "selftest": False}],
         "trusted_base": ["Router model Model/Router/{Types,Step}.lean: one step = one Router::events(id, ev) or one Router::consume(); link-side pushes/drains are separate steps; Rust panic sites explicit (Fail.panic); HashMap iteration orders that are observable and the Random strategy's draw are oracle inputs recorded by hook H3 and checked for admissibility", "Monitors Model/Router/Monitors.lean (executable spec evaluated on the implementation's observable trace, using the model's ghost history, which is trustworthy while model and implementation agree on every output)"],
         "modelled": ['meters, alerts, tracing, print_status, tenant prefix, message expiry (generators keep expiry out of range)', 'thread interleavings inside one Router::consume() (link-side drain between two router-side lock acquisitions) are not generated: ops are atomic', "flume channel capacity of the router's event channel, parking_lot mutexes"],
         "assumptions": ["router driven single-threadedly through hooks H1-H3 (guard --cfg rumqtt_verif): Router::verif_events / verif_consume, link-side buffers via rumqttd::verif::new_buffers"],
     },
     "C14": {
-        "runs": [{"vh": "router", "driver": "router C14", "args": ["--profile", "c14"], "shards_thorough": 16, "selftest": False}],
+        "runs": [{"vh": "router", "shards_quick": 8, "driver": "router C14", "args": ["--profile", "c14"], "shards_thorough": 16, "selftest": False}],
         "trusted_base": ["Router model Model/Router/{Types,Step}.lean: one step = one Router::events(id, ev) or one Router::consume(); link-side pushes/drains are separate steps; Rust panic sites explicit (Fail.panic); HashMap iteration orders that are observable and the Random strategy's draw are oracle inputs recorded by hook H3 and checked for admissibility", "Monitors Model/Router/Monitors.lean (executable spec evaluated on the implementation's observable trace, using the model's ghost history, which is trustworthy while model and implementation agree on every output)"],
         "modelled": ['meters, alerts, tracing, print_status, tenant prefix, message expiry (generators keep expiry out of range)', 'thread interleavings inside one Router::consume() (link-side drain between two router-side lock acquisitions) are not generated: ops are atomic', "flume channel capacity of the router's event channel, parking_lot mutexes"],
         "assumptions": ["router driven single-threadedly through hooks H1-H3 (guard --cfg rumqtt_verif): Router::verif_events / verif_consume, link-side buffers via rumqttd::verif::new_buffers"],
     },
     "C15": {
-        "runs": [{"vh": "router", "driver": "router C15", "args": ["--profile", "c15"], "shards_thorough": 16, "selftest": False}],
+        "runs": [{"vh": "router", "shards_quick": 8, "driver": "router C15", "args": ["--profile", "c15"], "shards_thorough": 16, "selftest": False}],
         "trusted_base": ["Router model Model/Router/{Types,Step}.lean: one step = one Router::events(id, ev) or one Router::consume(); link-side pushes/drains are separate steps; Rust panic sites explicit (Fail.panic); HashMap iteration orders that are observable and the Random strategy's draw are oracle inputs recorded by hook H3 and checked for admissibility", "Monitors Model/Router/Monitors.lean (executable spec evaluated on the implementation's observable trace, using the model's ghost history, which is trustworthy while model and implementation agree on every output)"],
         "modelled": ['meters, alerts, tracing, print_status, tenant prefix, message expiry (generators keep expiry out of range)', 'thread interleavings inside one Router::consume() (link-side drain between two router-side lock acquisitions) are not generated: ops are atomic', "flume channel capacity of the router's event channel, parking_lot mutexes"],
         "assumptions": ["router driven single-threadedly through hooks H1-H3 (guard --cfg rumqtt_verif): Router::verif_events / verif_consume, link-side buffers via rumqttd::verif::new_buffers"],
     },
     "C16": {
-        "runs": [{"vh": "router", "driver": "router C16", "args": ["--profile", "c16"], "shards_thorough": 16, "selftest": False}, {"vh": "stack", "driver": "stack C16", "args": ["--profile", "will"], "shards_thorough": 8}],
+        "runs": [{"vh": "router", "shards_quick": 8, "driver": "router C16", "args": ["--profile", "c16"], "shards_thorough": 16, "selftest": False}, {"vh": "stack", "driver": "stack C16", "args": ["--profile", "will"], "shards_thorough": 8}],
         "lean_extra_targets": ["Proofs.Props.C16srv"],
         "trusted_base": ["Router model Model/Router/{Types,Step}.lean: one step = one Router::events(id, ev) or one Router::consume(); link-side pushes/drains are separate steps; Rust panic sites explicit (Fail.panic); HashMap iteration orders that are observable and the Random strategy's draw are oracle inputs recorded by hook H3 and checked for admissibility", "Monitors Model/Router/Monitors.lean (executable spec evaluated on the implementation's observable trace, using the model's ghost history, which is trustworthy while model and implementation agree on every output)"],
         "modelled": ['meters, alerts, tracing, print_status, tenant prefix, message expiry (generators keep expiry out of range)', 'thread interleavings inside one Router::consume() (link-side drain between two router-side lock acquisitions) are not generated: ops are atomic', "flume channel capacity of the router's event channel, parking_lot mutexes"],
         "assumptions": ["router driven single-threadedly through hooks H1-H3 (guard --cfg rumqtt_verif): Router::verif_events / verif_consume, link-side buffers via rumqttd::verif::new_buffers"],
     },
     "C17": {
-        "runs": [{"vh": "router", "driver": "router C17", "args": ["--profile", "c17"], "shards_thorough": 16, "selftest": False}],
+        "runs": [{"vh": "router", "shards_quick": 8, "driver": "router C17", "args": ["--profile", "c17"], "shards_thorough": 16, "selftest": False}],
         "trusted_base": ["Router model Model/Router/{Types,Step}.lean: one step = one Router::events(id, ev) or one Router::consume(); link-side pushes/drains are separate steps; Rust panic sites explicit (Fail.panic); HashMap iteration orders that are observable and the Random strategy's draw are oracle inputs recorded by hook H3 and checked for admissibility", "Monitors Model/Router/Monitors.lean (executable spec evaluated on the implementation's observable trace, using the model's ghost history, which is trustworthy while model and implementation agree on every output)"],
         "modelled": ['meters, alerts, tracing, print_status, tenant prefix, message expiry (generators keep expiry out of range)', 'thread interleavings inside one Router::consume() (link-side drain between two router-side lock acquisitions) are not generated: ops are atomic', "flume channel capacity of the router's event channel, parking_lot mutexes"],
         "assumptions": ["router driven single-threadedly through hooks H1-H3 (guard --cfg rumqtt_verif): Router::verif_events / verif_consume, link-side buffers via rumqttd::verif::new_buffers"],
     },
     "C19": {
-        "runs": [{"vh": "router", "driver": "router C19", "args": ["--profile", "c19"], "shards_thorough": 16, "selftest": False}, {"vh": "admit", "selftest": True, "shards_thorough": 8}, {"vh": "stack", "driver": "stack C19", "args": ["--profile", "c19"], "shards_thorough": 8}],
+        "runs": [{"vh": "router", "shards_quick": 8, "driver": "router C19", "args": ["--profile", "c19"], "shards_thorough": 16, "selftest": False}, {"vh": "admit", "selftest": True, "shards_thorough": 8}, {"vh": "stack", "driver": "stack C19", "args": ["--profile", "c19"], "shards_thorough": 8}],
         "lean_extra_targets": ["Proofs.Props.C19net"],
         "trusted_base": ["Router model Model/Router/{Types,Step}.lean: one step = one Router::events(id, ev) or one Router::consume(); link-side pushes/drains are separate steps; Rust panic sites explicit (Fail.panic); HashMap iteration orders that are observable and the Random strategy's draw are oracle inputs recorded by hook H3 and checked for admissibility", "Monitors Model/Router/Monitors.lean (executable spec evaluated on the implementation's observable trace, using the model's ghost history, which is trustworthy while model and implementation agree on every output)"],
         "modelled": ['meters, alerts, tracing, print_status, tenant prefix, message expiry (generators keep expiry out of range)', 'thread interleavings inside one Router::consume() (link-side drain between two router-side lock acquisitions) are not generated: ops are atomic', "flume channel capacity of the router's event channel, parking_lot mutexes"],
@@ -125,7 +125,7 @@ PROPS = {
         "trusted_base": [
             "Timer model: time as Nat milliseconds = tokio's paused clock; `Timely` (a due timer fires before time moves on, the application keeps polling) is a hypothesis of ping_period / silent_broker_detected / connect_timeout",
             "the real EventLoop (v4 and v5) runs over tokio::io::duplex through hook H5 on a current-thread runtime with start_paused(true); the harness never sleeps on real time and runs every non-racing schedule twice (transcripts must be identical)",
-            "MqttState is abstract in the loop model (StateOps); the driver predicts the wire with a small stand-in (Driver/CLoopD.lean, `Mini`) that no theorem depends on",
+            "MqttState is abstract in the loop model (StateOps); the driver predicts the wire with a small stand-in (Driver/CLoopD.lean, `Mini`: id allocation, window, collision slot, clean() order of the repaired state.rs / v5/state.rs) that no theorem depends on",
         ],
         "modelled": [
             "tokio's timer accuracy on a real clock and select! fairness under load are runtime behaviour the model cannot exhibit: simultaneity is an oracle (either order accepted), lateness is excluded by `Timely`",
@@ -134,22 +134,23 @@ PROPS = {
         "assumptions": [
             "keep-alive values are whole seconds (v4 setter: 0 or >= 1 s, v5 setter: >= 5 s; v5 server_keep_alive any u16)",
             "an answer at exactly t+k is outside the hypothesis of no_false_alarm (both outcomes are accepted and recorded)",
+            "request classification in the loop model: a carried-over request is a retransmission iff it owns a packet id (Publish with pkid != 0, PubRel); everything else in `pending` is a new request and obeys flow control like the channel",
         ],
     },
     "C20": {
         "runs": [{"vh": "stack", "driver": "stack C20", "args": ["--profile", "c20"], "selftest": True, "shards_thorough": 8}],
-        "trusted_base": ["Admission model Model/Admission.lean (mqtt_connect + handle_auth on top of the codec model of the listener's decoder; external callback = parameter), spec Model/AdmissionSpec.lean", 'Server will model Model/ServerWill.lean (will-handler map incl. mutex poisoning, Fire/Cancel, will delay; Rust panics explicit), Encode model Model/Encode.lean (Notification -> Packet -> V4/V5::write via the codec model)', "Packet-level stack model Model/Stack.lean composed from these (used only for the correspondence); monitors in Driver/StackD.lean are written against the property text and evaluated on the implementation's observables", 'vh stack: real per-connection tasks (hook H4 verif_remote) + real router thread over tokio::io::duplex, client side = rumqttc v4/v5 codecs; paused clock with auto-advance inhibited, outcomes observed as events (bytes, EOF, JoinHandle), barrier = two PINGREQ/PINGRESP rounds; every scripted case executed twice, transcripts must be equal'],
+        "trusted_base": ["Admission model Model/Admission.lean (mqtt_connect + handle_auth on top of the codec model of the listener's decoder; external callback = parameter), spec Model/AdmissionSpec.lean", 'Server will model Model/ServerWill.lean (will-handler map, Fire/Cancel, will delay; Rust panics explicit), Encode model Model/Encode.lean (Notification -> Packet -> V4/V5::write via the codec model)', "Packet-level stack model Model/Stack.lean composed from these (used only for the correspondence); monitors in Driver/StackD.lean are written against the property text and evaluated on the implementation's observables", 'vh stack: real per-connection tasks (hook H4 verif_remote) + real router thread over tokio::io::duplex, client side = rumqttc v4/v5 codecs; paused clock with auto-advance inhibited, outcomes observed as events (bytes, EOF, JoinHandle), barrier = two PINGREQ/PINGRESP rounds; every scripted case executed twice, transcripts must be equal'],
         "modelled": ["tokio scheduling and timer accuracy (virtual time), flume channels, the router thread's interleaving with the connection tasks (ops are serialised by protocol-level barriers)", 'TLS / websocket listeners, tenant prefixes, uuid generation (assigned client ids masked)', 'QoS 2, retained messages, shared subscriptions and redelivery to resumed sessions are outside the stack scenarios (router-level checks cover them)'],
         "assumptions": ["Emittable: value ranges of the Rust field types (u16 packet ids and aliases, subscription ids within the variable-byte limit, topic through a 16-bit length prefix) and frames within the MQTT size limit; towards a v4 connection no broker alias / subscription id exists (they come from MQTT 5 CONNECT / SUBSCRIBE properties)",
-                        "known findings (KNOWN_FINDINGS.txt): V4::write unreachable!() on a PUBLISH with properties (kernel-checked witness C20.v4_forward_with_properties_panics, _partial theorem excludes exactly that trigger); broker topic alias keyed by the subscription filter (C20.alias_keyed_by_filter_confuses_topics)"],
+                        "no known findings: the two defects this check found (V4::write unreachable!() on a PUBLISH with properties; broker topic alias keyed by a wildcard filter) were repaired in /repo (KNOWN_FINDINGS.txt `fixed:`), the models follow the repaired code (V4::write drops the properties; aliases only for filters without wildcards) and both clauses are proved at full strength (C20.router_emits_encodable_v4, C20.aliased_forwards_keep_topic)"],
     },
 }
 
 _CSTATE_TB = [
-    "Client state model: rumqttc::MqttState (v4) and rumqttc::v5::MqttState as one Lean model (Model/Client/State.lean) with a Version parameter; u16 counters as Nat with explicit overflow/underflow panics; FixedBitSet as List Bool / List Nat",
-    "Loop model (Model/Client/Loop.lean): only the request gate of select!, next_request's preference for pending, EventLoop::clean and pending.clear(); the ghost wire view and the monitors (Model/Client/Spec.lean) read observations only",
+    "Client state model: rumqttc::MqttState (v4) and rumqttc::v5::MqttState as one Lean model (Model/Client/State.lean) with a Version parameter; u16 counters as Nat with explicit overflow/underflow panics; FixedBitSet as List Bool / List Nat; the v4 send stamps (outgoing_order / outgoing_count) as List Nat / Nat",
+    "Loop model (Model/Client/StateLoop.lean): only the request gate of select! (pending_ready: a head of pending that owns a packet id is never held back, one without obeys flow control), next_request's preference for pending, EventLoop::clean (state.clean() in front of the waiting rest) and pending.clear(); the ghost wire view and the monitors (Model/Client/Spec.lean) read observations only",
 ]
-_CSTATE_MOD = ["std::collections::VecDeque / Vec / HashMap semantics", "fixedbitset 0.5.7 (insert panics out of bounds, contains returns false) — tied by the correspondence incl. an out-of-range pubrel case",
+_CSTATE_MOD = ["std::collections::VecDeque / Vec / HashMap semantics, Vec::sort_by_key (stable)", "fixedbitset 0.5.7 (insert panics out of bounds, contains returns false) — tied by the correspondence incl. an out-of-range pubrel case",
                "tokio / flume / the real EventLoop (poll, reconnect, timers, channel): NOT exercised by this sub-command — cloop slice"]
 
 def _cstate(pid, extra_assume):
@@ -159,12 +160,13 @@ def _cstate(pid, extra_assume):
         "trusted_base": _CSTATE_TB,
         "modelled": _CSTATE_MOD,
         "assumptions": [
-            "theorems quantify over all op sequences of the loop-use model lstep (user requests only through the gate, pending first, pings and incoming packets ungated, failure = clean, session not resumed = pending.clear()), all max in 1..65535, manual acks on/off, both versions",
-            "the harness drives MqttState directly (also ungated and with injected requests); clauses that presuppose the gate are judged only on traces whose requests respected it (ghost flag gated)",
+            "theorems quantify over all op sequences of the loop-use model lstep (user requests only through the gate, head of pending first when pending_ready, pings and incoming packets ungated, failure = clean, session not resumed = pending.clear()), all max in 1..65535, manual acks on/off, both versions; outgoing publishes of the theorems carry no topic alias",
+            "the harness drives MqttState directly (also ungated and with injected requests); clauses that presuppose the loop's discipline are judged only on traces that respected it (ghost flag gated: fresh requests through the gate, replays = head of pending, an unnumbered head only while the window is open)",
+            "MQTT 5: the theorems that depend on the negotiated limit exclude runs in which a CONNACK lowers Receive Maximum under what is outstanding or waiting in pending (#17 residual; KNOWN_FINDINGS.txt)",
         ] + extra_assume,
     }
 
 PROPS["C07"] = _cstate("C07", ["event-loop part (EventLoop::poll really applying the gate, requests drained from the channel into pending bypassing it) not covered: cloop slice"])
 PROPS["C02"] = _cstate("C02", ["state part only: accepted\\done ⊆ held and clean() exactness; that poll() retransmits pending after a reconnect with session_present is NOT covered here: cloop slice"])
 PROPS["C10"] = _cstate("C10", ["state part only: readb batching and what poll() yields are not covered here: cloop slice"])
-PROPS["C11"] = _cstate("C11", ["state part only: order and content of clean() and of replayed requests; that pending is written before later requests, and the nested-failure reordering of EventLoop::clean, belong to the cloop slice"])
+PROPS["C11"] = _cstate("C11", ["state part only: order and content of clean() and of replayed requests, order of pending across failures; that pending is written before later requests belongs to the cloop slice"])
